@@ -25,6 +25,8 @@ for g in ("before", "on"):
         SLOTS += [(g, "generic", p, f"{g}_transition"), (g, "conv1", p, f"{g}_e1"),
                   (g, "conv2", p, f"{g}_e2"), (g, "inline", p, "i" + g[0])]
     SLOTS.append((g, "decorator", "dec", "d" + g[0]))
+    # one callback name attached both as `before` and as `on` of the transition
+    SLOTS.append((g, "inline", "sm", "shr"))
 VALUES = (None, 0, "", [], [1, 2], (1,), {}, "x")
 KINDS = (("external", "e1"), ("external", "e2"), ("self", "e1"), ("internal", "e1"),
          ("internal", "e2"), ("none", "e1"))
@@ -43,7 +45,8 @@ def make_spec(pop, kind, asyn):
             inl[g].append("%" + nm)
             provided.append(("dec", nm, fl))
         else:
-            provided.append((p, nm, fl))
+            if (p, nm, fl) not in provided:
+                provided.append((p, nm, fl))
             if way == "inline":
                 inl[g].append(nm)
     # always-present non-contributing callbacks with distinct sentinel results
@@ -105,16 +108,26 @@ def run_population(res, pop, tier):
             passes = [(False, v) for v in combos]
             if len(pop) <= 1 and kind != "none":
                 passes += [(True, v) for v in combos]
+                if kind == "external" and cname == "sync":
+                    # third pass: the `after` callback queues an event that is not allowed
+                    # followed by an allowed one; the outer call fails, and the *next* event
+                    # must return its own result, not the stranded one's
+                    passes += [("reject", v) for v in combos[:2]]
             for vi, (nested, vals) in enumerate(passes):
                 rets = dict(zip(cids, vals))
-                rules = {(("sm", "ia"), ev): (("n1",), 1)} if nested else {}
-                p = Pair(built, cfg, plan=Plan(rets=rets, rules=rules))
+                rules = {(("sm", "ia"), ev): (("n1",), 1)} if nested is True else \
+                    {(("sm", "ia"), ev): (("zz", "n1"), 1)} if nested == "reject" else {}
+                pcfg = cfg._replace(allow=False) if nested == "reject" else cfg
+                p = Pair(built, pcfg, plan=Plan(rets=rets, rules=rules))
                 msg = p.construct()
                 style = "method" if vi % 2 else "send"
                 gv = {"gok": kind != "none", "vok": True}
                 if msg is None:
                     msg = p.send(ev, gv, tag="t0", style=style)
-                if msg is None:
+                if msg is None and nested == "reject":
+                    # compared with the reference, which has nothing left in its queue
+                    msg = p.send("back", gv, tag="t1")
+                elif msg is None:
                     e, o = p.last
                     msg = check_result(e.groups, o.value)
                     if kind == "none" and o.value is not None:
@@ -200,11 +213,17 @@ def replay(sc):
     built = build(m)
     vals = [eval(v) for v in sc["values"]]  # noqa: S307
     rets = dict(zip([cid_of(SLOTS[i]) for i in pop], vals))
-    rules = {(("sm", "ia"), ev): (("n1",), 1)} if sc.get("nested") else {}
+    nested = sc.get("nested")
+    rules = {(("sm", "ia"), ev): (("n1",), 1)} if nested is True else \
+        {(("sm", "ia"), ev): (("zz", "n1"), 1)} if nested == "reject" else {}
+    if nested == "reject":
+        cfg = cfg._replace(allow=False)
     p = Pair(built, cfg, plan=Plan(rets=rets, rules=rules))
     msg = p.construct()
     if msg is None:
         msg = p.send(ev, {"gok": kind != "none", "vok": True}, tag="t0", style=sc["style"])
+    if msg is None and nested == "reject":
+        return p.send("back", {"gok": True, "vok": True}, tag="t1")
     if msg is None:
         e, o = p.last
         msg = check_result(e.groups, o.value)
